@@ -199,6 +199,18 @@ theorem range_model_is_rangedec (rc : RangeDec.Rc) (p : Nat) (inp rest : List UI
   obtain ⟨h1, h2⟩ := normalizeL_bytes rc inp rc' rest h
   exact ⟨h1, h2, bitCore_range rc' p, directCore_range rc', by decide, by decide⟩
 
+/-- The same bound stated directly on the executable decoder model of b-c03 (`Lzma.decodeSymbol`, one symbol from
+    SEQ_IS_MATCH up to its output step): a symbol that completes reads at most LZMA_IN_REQUIRED bytes. NOT proved here:
+    what is missing is the link "the bits `decodeSymbol` decodes form one of `symbolShapes`" (a walk through its monadic
+    code); `in_required_20` above covers every such shape, `range_model_is_rangedec` ties the range arithmetic to the
+    primitives `decodeSymbol` is built from, and the observation engine watches the real fast loop under ASan with
+    exactly sized input buffers. (The end-of-payload marker's final normalisation is excluded exactly as in the C code,
+    which leaves the fast loop for it: `goto eopm`.) -/
+def in_required_20_statement : Prop :=
+  ∀ (s s' : Lzma.St) (eopmValid : Bool) (pend : Lzma.Pending),
+    253952 ≤ s.range → s.range < RangeDec.U32 → (∀ i, i < s.probs.size → RangeDec.ProbInv (s.probs.getD i 0)) →
+    Lzma.decodeSymbol eopmValid s = .ok pend s' → s'.inPos ≤ s.inPos + Gen.C04.LZMA_IN_REQUIRED
+
 /-- non-vacuity: the longest path (match, 10-bit length, slot 63: 26 direct + 4 align bits) is in the grammar, and with
     the most range-shrinking choices it really reads 19 or 20 bytes -/
 example : (List.replicate 18 P ++ List.replicate 26 D ++ List.replicate 4 P) ∈ symbolShapes := by decide +kernel
@@ -238,6 +250,11 @@ theorem dict_inv_preserved :
   ⟨LzDict.posInv_init, fun _ h n hn => LzDict.posInv_advance h n hn, fun _ h n => LzDict.posInv_wrap_setLimit h n,
    fun _ h hl => LzDict.posInv_reset h hl⟩
 
+/-- non-vacuity: a dictionary that has wrapped, write position near the start, so that distances ≥ pos read from the end -/
+example : LzDict.PosInv { pos := 300, full := 4096, limit := 400, size := 4672, hasWrapped := true, needReset := false } :=
+  { size_ge := by decide, pos_le_limit := by decide, limit_le_size := by decide, full_le := by decide,
+    not_wrapped := (by intro h; cases h), wrapped := (by intro _; decide) }
+
 /-! ## VLI, Block Header, Index -/
 
 /-- `lzma_vli_decode`: at most LZMA_VLI_BYTES_MAX = 9 bytes are used and the value never exceeds LZMA_VLI_MAX = 2^63 - 1
@@ -265,6 +282,10 @@ theorem vli_no_overflow :
       Nat.pow_le_pow_right (by omega) (by omega)
     have e : (2 : Nat) ^ 63 = 9223372036854775808 := by decide
     omega
+
+/-- non-vacuity: the largest VLI takes nine bytes and is accepted; a tenth byte is refused -/
+example : Vli.vliDecode [0xFF, 0xFF, 0xFF, 0xFF, 0xFF, 0xFF, 0xFF, 0xFF, 0x7F, 0x55] = some (9223372036854775807, [0x55]) := by decide
+example : Vli.vliDecode [0xFF, 0xFF, 0xFF, 0xFF, 0xFF, 0xFF, 0xFF, 0xFF, 0xFF, 0x01] = none := by decide
 
 /-- `lzma_block_header_size_decode(in[0])` for a Block (first byte ≠ 0x00) is a multiple of four in
     [LZMA_BLOCK_HEADER_SIZE_MIN, LZMA_BLOCK_HEADER_SIZE_MAX]; a successful `lzma_block_header_decode` implies exactly
@@ -297,6 +318,10 @@ theorem block_header_size_bounds :
         simp only [Gen.C04.LZMA_BLOCK_HEADER_SIZE_MAX]
         omega
 
+/-- non-vacuity: the Block Header of tests/files/good-1-check-crc32.xz decodes -/
+example : (Container.blockHeaderDecodeWith 12 1 [0x02, 0x00, 0x21, 0x01, 0x08, 0x00, 0x00, 0x00, 0xD8, 0x0F, 0x23, 0x13]).isOk = true := by
+  decide +kernel
+
 /-- Index decoder: the Number of Records is checked against the memory limit BEFORE anything depending on it is
     allocated: if `lzma_index_memusage(1, count) > memlimit` the result is LZMA_MEMLIMIT_ERROR with no index, whatever
     the index operations (`prealloc`, `append`) would do — the result does not mention them; conversely an index is
@@ -315,6 +340,9 @@ theorem index_count_memlimit_before_alloc {σ : Type} (ops : Index.DecOps σ) (m
     have hm' : Index.memusage 1 count > max 1 memlimit := by omega
     unfold Index.decodeG at hs
     simp [h0, hc, hm'] at hs
+
+/-- non-vacuity: an Index announcing 2^40 Records under a 1000-byte limit is refused at the count -/
+example : (Index.decodeG Index.Spec.decOps 1000 [0, 0x80, 0x80, 0x80, 0x80, 0x80, 0x20, 5, 5]).ret = .memlimitError := by decide
 
 /-! ## lzma_code: no-progress rule and return codes -/
 
@@ -344,6 +372,18 @@ theorem no_progress_finite (s : Stream) (c1 c2 : Call) (a1 a2 : InnerArgs) (r1 r
   show (lzmaCode c2.code (c2.apply (step s c1).strm) c2.action).ret = LZMA_BUF_ERROR
   rw [lzmaCode_buf_error_iff c2.code _ c2.action (hlaw _)]
   exact ⟨i2, a2, r2, by rw [apply_internal, hint, hi2'], h2, hidle2, habe⟩
+
+open LzmaCode in
+/-- non-vacuity: a coder that idles, called twice without input or output space: LZMA_OK, then LZMA_BUF_ERROR -/
+example :
+    let i : Internal := { hasCode := true, sequence := .run, availIn := 0, supported := 9, allowBufError := false }
+    let s : Stream := { nextIn := none, availIn := 0, totalIn := 0, nextOut := none, availOut := 0, totalOut := 0,
+                        reserved := {}, internal := some i }
+    let c : Call := { action := 0, nextIn := none, availIn := 0, nextOut := none, availOut := 0,
+                      code := fun _ => ⟨0, 0, LZMA_OK⟩ }
+    (step s c).ret = LZMA_OK ∧ (step (step s c).strm c).ret = LZMA_BUF_ERROR
+    ∧ (∃ a r, (step s c).called = some (a, r) ∧ r.idle = true) := by
+  refine ⟨by decide, by decide, ⟨_, _, rfl, by decide⟩⟩
 
 open LzmaCode in
 /-- Every value `lzma_code` returns is one of the documented `lzma_ret` codes 0..12 (LZMA_OK … LZMA_SEEK_NEEDED),
@@ -388,6 +428,29 @@ theorem seek_within_file (fileSize : Nat) (steps : List TargetStep) :
     · simp at hp
   · omega
 
+/-- `reverse_seek` of this file and of the file-info model of b-c13 (Model/FileInfo.lean) are the same arithmetic:
+    the position handed to `seek_to_pos` is `tempStart = file_target_pos - temp_size`. -/
+theorem reverse_seek_models_agree (st : Index.FI) :
+    (match Index.reverseSeek st with
+     | .ok st' => reverseSeek st.target = some (st'.tempSize, st'.tempStart) ∧ st'.target = st.target
+     | .error _ => reverseSeek st.target = none) := by
+  unfold Index.reverseSeek reverseSeek
+  simp only [Index.STREAM_HEADER_SIZE, Index.TEMP_SIZE, C04Sym.STREAM_HEADER_SIZE, C04Sym.TEMP_SIZE]
+  by_cases h : st.target < 2 * 12
+  · simp [h]
+  · simp only [h, if_false]
+    trivial
+
+/-- The full statement about the file-info model (every seek it would request while walking a file lies inside the
+    file) cannot be phrased on `Index.streamLoop` as it stands, because that model reads the file array directly and
+    does not emit its seek requests; `seek_within_file` proves it for the `file_target_pos` arithmetic of the C code
+    (every guarded assignment, both call sites), and the observation engine checks `seek_pos ≤ file_size` on every
+    LZMA_SEEK_NEEDED of the real decoder. -/
+def seek_within_file_statement : Prop :=
+  ∀ (fileSize : Nat) (steps : List TargetStep), ∀ t ∈ targetTrace fileSize steps, ∀ p ∈ seekTargets t, p ≤ fileSize
+
+theorem seek_within_file_partial : seek_within_file_statement := fun fs steps => seek_within_file fs steps
+
 /-- non-vacuity: a two-Stream walk (padding, footer, index, blocks, header of the second Stream, then the first) -/
 example : targetTrace 1000 [.padding 4 8, .footer, .index 24, .blocks 400, .headerBack, .headerDone, .footer, .index 24, .blocks 476]
     = [1000, 996, 984, 960, 548, 560, 548, 536, 512, 24] := by decide
@@ -406,6 +469,10 @@ theorem x86_inner_loop_terminates (enc : Bool) (pc5 mask src : BitVec 32) (fuel 
     (h1 : mask = 8#32 → Bcj.test86 (Bcj.u8 src) = false) :
     Bcj.x86Loop enc pc5 mask (fuel + 2) src = Bcj.x86Loop enc pc5 mask 2 src :=
   BitWords.x86_loop_two enc pc5 mask src fuel hm h3 h2 h1
+
+/-- non-vacuity: an operand whose inspected byte (0x12) is not 00/FF -/
+example : Bcj.x86Loop false 0x1005#32 2#32 7 0x00123456#32 = Bcj.x86Loop false 0x1005#32 2#32 2 0x00123456#32 :=
+  x86_inner_loop_terminates false _ _ _ 5 (by decide) (by decide) (by decide) (by decide)
 
 /-- Every model decoder / parser is a total Lean function: each constant below is a plain `def` accepted by Lean's
     termination checker (structural recursion on the input or on an explicit fuel; no `partial`, `unsafe` or
